@@ -262,6 +262,7 @@ TFault ==
                [] E.k = "unstick" -> [cs EXCEPT ![i].stuck = FALSE]
                [] E.k = "rfail" -> [cs EXCEPT ![i].rfail = TRUE, ![i].must = (@ \/ ~cancelled)]
                [] E.k = "wfail" -> [cs EXCEPT ![i].wfail = TRUE]
+               [] E.k = "pass" -> cs      \* (a stuck peer takes one more envelope: still behind)
   /\ UNCHANGED <<pc, phase, reg, cur, cancelled, dropped, avars>>
 
 \* the disconnect callback: before Cancel it must name a connection that failed
